@@ -2195,4 +2195,373 @@ theorem sliceLoop_writeDocsP (F : ExtFloat) (P : List Nat → Prop) (hP : F.Fixe
   simp [sliceDocs_writeDocsP F P hP docs h]
 
 
+/-! ## The detection trial (`ignore_value`) -/
+
+/-- After a complete value: back to the enclosing bracket, or finished. -/
+def doneF (stk : List Nat) (r : List Nat) : Except Err (List Nat) :=
+  match stk with
+  | [] => .ok r
+  | _ :: _ => igAfter stk r true
+
+theorem igValue_eq (stk bs : List Nat) : igValue stk bs =
+    match skipWs bs with
+    | [] => .error .eofValue
+    | b :: r =>
+      match classify b with
+      | .n => match ident [0x75, 0x6C, 0x6C] r with
+        | .error e => .error e
+        | .ok r' => doneF stk r'
+      | .t => match ident [0x72, 0x75, 0x65] r with
+        | .error e => .error e
+        | .ok r' => doneF stk r'
+      | .f => match ident [0x61, 0x6C, 0x73, 0x65] r with
+        | .error e => .error e
+        | .ok r' => doneF stk r'
+      | .minus => match ignoreNumber r with
+        | .error e => .error e
+        | .ok r' => doneF stk r'
+      | .digit => match ignoreNumber (b :: r) with
+        | .error e => .error e
+        | .ok r' => doneF stk r'
+      | .quote => match ignoreStr r with
+        | .error e => .error e
+        | .ok r' => doneF stk r'
+      | .lbrack => igAfter (0x5B :: stk) r false
+      | .lbrace => igAfter (0x7B :: stk) r false
+      | .other => .error .expectedValue := by
+  rw [igValue.eq_def]
+  unfold doneF
+  split
+  · rename_i h; simp [h]
+  · rename_i b r h
+    simp only [h]
+    split <;> rename_i hc <;> simp only [hc]
+    all_goals (try (split <;> simp_all))
+    all_goals (cases stk <;> rfl)
+
+/-- The key and `:` of an object entry (inside `{`), then the value. -/
+def nextF (frame : Nat) (up : List Nat) (bs' : List Nat) : Except Err (List Nat) :=
+  if frame = 0x7B then
+    match skipWs bs' with
+    | [] => .error .eofObject
+    | q :: r1 =>
+      if q ≠ 0x22 then .error .keyMustBeString else
+      match ignoreStr r1 with
+      | .error e => .error e
+      | .ok r2 =>
+        match skipWs r2 with
+        | [] => .error .eofObject
+        | c3 :: r3 => if c3 ≠ 0x3A then .error .expectedColon else igValue (frame :: up) r3
+  else igValue (frame :: up) bs'
+
+theorem igAfter_eq (frame : Nat) (up bs : List Nat) (acc : Bool) : igAfter (frame :: up) bs acc =
+    match skipWs bs with
+    | [] => .error (if frame = 0x5B then .eofList else .eofObject)
+    | c :: r =>
+      if c = 0x2C ∧ acc then nextF frame up r
+      else if (c = 0x5D ∧ frame = 0x5B) ∨ (c = 0x7D ∧ frame = 0x7B) then doneF up r
+      else if acc then
+        .error (if frame = 0x5B then .expectedListCommaOrEnd else .expectedObjectCommaOrEnd)
+      else nextF frame up (c :: r) := by
+  rw [igAfter.eq_def]
+  unfold doneF nextF
+  simp only
+  split
+  · rename_i h; simp [h]
+  · rename_i c r h
+    simp only [h]
+    by_cases h1 : c = 0x2C ∧ acc = true
+    · simp only [h1, and_self, if_true]
+      by_cases hf : frame = 0x7B
+      · simp only [hf, if_true]
+        split
+        · rename_i e1; simp [e1]
+        · rename_i q r1 e1
+          simp only [e1]
+          split
+          · rfl
+          · split
+            · rename_i e2; simp [e2]
+            · rename_i r2 e2
+              simp only [e2]
+              split
+              · rename_i e3; simp [e3]
+              · rename_i c3 r3 e3; simp [e3]
+      · simp only [hf, if_false]
+    · simp only [h1, if_false]
+      by_cases h2 : (c = 0x5D ∧ frame = 0x5B) ∨ (c = 0x7D ∧ frame = 0x7B)
+      · simp only [h2, if_true]
+        cases up <;> rfl
+      · simp only [h2, if_false]
+        by_cases h3 : acc = true
+        · simp only [h3, if_true]
+        · simp only [h3]
+          by_cases hf : frame = 0x7B
+          · simp only [hf, if_true]
+            simp only [Bool.false_eq_true, if_false]
+            split
+            · rename_i e1; simp [e1]
+            · rename_i q r1 e1
+              simp only [e1]
+              split
+              · rfl
+              · split
+                · rename_i e2; simp [e2]
+                · rename_i r2 e2
+                  simp only [e2]
+                  split
+                  · rename_i e3; simp [e3]
+                  · rename_i c3 r3 e3; simp [e3]
+          · simp only [hf, if_false, Bool.false_eq_true]
+
+
+theorem ignoreNumber_natDec (n : Nat) (rest : List Nat) (h : numEnd rest = true) :
+    ignoreNumber (natDec n ++ rest) = .ok rest := by
+  have tail : ∀ r : List Nat, numEnd r = true →
+      (match r with
+        | [] => (Except.ok [] : Except Err (List Nat))
+        | c :: r' =>
+          if c = 0x2E then
+            match takeDigits r' with
+            | ([], _) => .error .invalidNumber
+            | (_ :: _, r2) =>
+              match r2 with
+              | [] => .ok []
+              | e :: r3 =>
+                if e = 0x65 ∨ e = 0x45 then
+                  (match (expSign r3).2 with
+                    | [] => .error .invalidNumber
+                    | c :: r3 => if isDigit c then .ok (takeDigits r3).2 else .error .invalidNumber)
+                else .ok (e :: r3)
+          else if c = 0x65 ∨ c = 0x45 then
+            (match (expSign r').2 with
+              | [] => .error .invalidNumber
+              | c :: r3 => if isDigit c then .ok (takeDigits r3).2 else .error .invalidNumber)
+          else .ok (c :: r')) = .ok r := by
+    intro r hr
+    cases r with
+    | nil => rfl
+    | cons c r' => simp [numEnd] at hr; simp [hr]
+  by_cases hn : n = 0
+  · subst hn
+    rw [natDec_zero]
+    have hd := numEnd_not_digit h
+    simp only [List.cons_append, List.nil_append, ignoreNumber, if_true]
+    cases rest with
+    | nil => simp
+    | cons b r =>
+      simp [digitEnd] at hd
+      simp only [hd, Bool.false_eq_true, if_false]
+      exact tail (b :: r) h
+  · obtain ⟨b, t, hb, h1, h2⟩ := natDec_head n (by omega)
+    have hbd : isDigit b = true := by simp [isDigit]; omega
+    have htd : takeDigits (t ++ rest) = (t, rest) := by
+      apply takeDigits_append _ _ _ (numEnd_not_digit h)
+      intro x hx
+      exact isDigit_of_natDec (n := n) (by rw [hb]; simp [hx])
+    rw [hb]
+    simp only [List.cons_append, ignoreNumber]
+    rw [if_neg (by omega), if_pos hbd, htd]
+    exact tail rest h
+
+theorem ignoreStr_quote (rest : List Nat) : ignoreStr (0x22 :: rest) = .ok rest := by
+  rw [ignoreStr.eq_def]; simp
+
+theorem ignoreStr_raw1 (b : Nat) (rest : List Nat) (h1 : 0x20 ≤ b) (h2 : b ≠ 0x22) (h3 : b ≠ 0x5C) :
+    ignoreStr (b :: rest) = ignoreStr rest := by
+  rw [ignoreStr.eq_def]
+  simp only
+  rw [if_neg h2, if_neg h3, if_neg (by omega)]
+
+theorem ignoreStr_raw (bytes tail : List Nat) (h : ∀ b ∈ bytes, 0x20 ≤ b ∧ b ≠ 0x22 ∧ b ≠ 0x5C) :
+    ignoreStr (bytes ++ tail) = ignoreStr tail := by
+  induction bytes with
+  | nil => rfl
+  | cons b bs ih =>
+    have hb := h b (by simp)
+    rw [List.cons_append, ignoreStr_raw1 b _ hb.1 hb.2.1 hb.2.2, ih (fun x hx => h x (by simp [hx]))]
+
+theorem ignoreStr_esc (rest r : List Nat) (h : ignoreEscape rest = .ok r) :
+    ignoreStr (0x5C :: rest) = ignoreStr r := by
+  rw [ignoreStr.eq_def]
+  simp only [show ¬ (0x5C = 0x22) by decide, if_false, if_true]
+  split
+  · rename_i heq; rw [h] at heq; simp at heq
+  · rename_i r' heq
+    rw [h] at heq; simp at heq
+    subst heq; rfl
+
+theorem ignoreStr_writeCp (c : Nat) (tail : List Nat) :
+    ignoreStr (writeCp c ++ tail) = ignoreStr tail := by
+  unfold writeCp
+  split
+  · exact ignoreStr_esc _ _ (by simp [ignoreEscape])
+  split
+  · exact ignoreStr_esc _ _ (by simp [ignoreEscape])
+  split
+  · exact ignoreStr_esc _ _ (by simp [ignoreEscape])
+  split
+  · exact ignoreStr_esc _ _ (by simp [ignoreEscape])
+  split
+  · exact ignoreStr_esc _ _ (by simp [ignoreEscape])
+  split
+  · exact ignoreStr_esc _ _ (by simp [ignoreEscape])
+  split
+  · exact ignoreStr_esc _ _ (by simp [ignoreEscape])
+  split
+  · rename_i h
+    have h1 : hexVal (hexLower (c / 16)) = some (c / 16) := hexVal_hexLower _ (by omega)
+    have h2 : hexVal (hexLower (c % 16)) = some (c % 16) := hexVal_hexLower _ (by omega)
+    have h0 : hexVal 0x30 = some 0 := by simp [hexVal]
+    have key : ignoreEscape (0x75 :: 0x30 :: 0x30 :: hexLower (c / 16) :: hexLower (c % 16) :: tail) =
+        .ok tail := by
+      simp [ignoreEscape, hexEscape, hex4, h0, h1, h2]
+    simp only [List.cons_append, List.nil_append]
+    exact ignoreStr_esc _ _ key
+  · rename_i h1 h2 h3 h4 h5 h6 h7 h8
+    apply ignoreStr_raw
+    intro b hb
+    by_cases hlt : c < 0x80
+    · simp [utf8, hlt] at hb; subst hb; omega
+    · have := utf8_ge c (by omega) b hb; omega
+
+theorem ignoreStr_flatMap (cps rest : List Nat) :
+    ignoreStr (cps.flatMap writeCp ++ 0x22 :: rest) = .ok rest := by
+  induction cps with
+  | nil => simp [ignoreStr_quote]
+  | cons c cps ih =>
+    simp only [List.flatMap_cons, List.append_assoc]
+    rw [ignoreStr_writeCp c _, ih]
+
+
+/-- The detection trial reads a written value to its end, at any nesting depth
+(it has no recursion limit) and whatever brackets are open around it. -/
+theorem ignore_write_all (F : ExtFloat) :
+    (∀ v, wellFormed v = true → ∀ stk rest, (isIntVal v = true → numEnd rest = true) →
+      igValue stk (write F v ++ rest) = doneF stk rest) ∧
+    (∀ first es, wellFormedEntries es = true → ∀ up rest,
+      igAfter (0x7B :: up) (writeEntries F first es ++ 0x7D :: rest) (!first) = doneF up rest) ∧
+    (∀ first xs, wellFormedList xs = true → ∀ up rest,
+      igAfter (0x5B :: up) (writeElems F first xs ++ 0x5D :: rest) (!first) = doneF up rest) := by
+  apply write.mutual_induct
+    (motive_1 := fun v => wellFormed v = true → ∀ stk rest, (isIntVal v = true → numEnd rest = true) →
+      igValue stk (write F v ++ rest) = doneF stk rest)
+    (motive_2 := fun first es => wellFormedEntries es = true → ∀ up rest,
+      igAfter (0x7B :: up) (writeEntries F first es ++ 0x7D :: rest) (!first) = doneF up rest)
+    (motive_3 := fun first xs => wellFormedList xs = true → ∀ up rest,
+      igAfter (0x5B :: up) (writeElems F first xs ++ 0x5D :: rest) (!first) = doneF up rest)
+  · intro _ stk rest _
+    simp [igValue_eq, write, skipWs, isWs, classify, ident]
+  · intro _ stk rest _
+    simp [igValue_eq, write, skipWs, isWs, classify, ident]
+  · intro _ stk rest _
+    simp [igValue_eq, write, skipWs, isWs, classify, ident]
+  · -- int
+    intro i hwf stk rest hrest
+    have hrest := hrest rfl
+    simp only [write, intDec]
+    split
+    · rw [igValue_eq]
+      simp only [List.cons_append, skipWs, show isWs 0x2D = false by decide, Bool.false_eq_true, if_false,
+        show classify 0x2D = Tok.minus by decide]
+      rw [ignoreNumber_natDec _ rest hrest]
+    · obtain ⟨b, t, hb, h1, h2⟩ := natDec_cons i.natAbs
+      have hcl : classify b = Tok.digit := by
+        have hdg : isDigit b = true := by simp [isDigit]; omega
+        unfold classify
+        simp only [hdg, if_true]
+        rw [if_neg (show ¬ b = 0x6E by omega), if_neg (show ¬ b = 0x74 by omega),
+          if_neg (show ¬ b = 0x66 by omega), if_neg (show ¬ b = 0x2D by omega)]
+      have hws : isWs b = false := by simp [isWs]; omega
+      rw [igValue_eq]
+      have e1 : natDec i.natAbs ++ rest = b :: (t ++ rest) := by rw [hb]; rfl
+      rw [e1]
+      simp only [skipWs, hws, Bool.false_eq_true, if_false, hcl]
+      rw [← e1, ignoreNumber_natDec _ rest hrest]
+  · intro src hwf; simp [wellFormed] at hwf
+  · -- str
+    intro cps _ stk rest _
+    simp [igValue_eq, write, writeStr, skipWs, isWs, classify, isDigit, ignoreStr_flatMap cps rest]
+  · -- arr
+    intro xs ih hwf stk rest _
+    simp only [wellFormed] at hwf
+    have e : write F (.arr xs) ++ rest = 0x5B :: (writeElems F true xs ++ 0x5D :: rest) := by simp [write]
+    rw [e, igValue_eq]
+    simp only [skipWs, show isWs 0x5B = false by decide, Bool.false_eq_true, if_false,
+      show classify 0x5B = Tok.lbrack by decide]
+    have := ih hwf stk rest
+    simp only [Bool.not_true] at this
+    rw [this]
+  · -- obj
+    intro es ih hwf stk rest _
+    simp only [wellFormed] at hwf
+    have e : write F (.obj es) ++ rest = 0x7B :: (writeEntries F true es ++ 0x7D :: rest) := by simp [write]
+    rw [e, igValue_eq]
+    simp only [skipWs, show isWs 0x7B = false by decide, Bool.false_eq_true, if_false,
+      show classify 0x7B = Tok.lbrace by decide]
+    have := ih hwf stk rest
+    simp only [Bool.not_true] at this
+    rw [this]
+  · -- elems nil
+    intro first _ up rest
+    rw [igAfter_eq]
+    simp [writeElems, skipWs, isWs]
+  · -- elems cons
+    intro first x xs ih1 ih2 hwf up rest
+    simp only [wellFormedList, Bool.and_eq_true] at hwf
+    have htail : numEnd (writeElems F false xs ++ 0x5D :: rest) = true := by
+      cases xs with
+      | nil => simp [writeElems, numEnd, isDigit]
+      | cons y ys => simp [writeElems, numEnd, isDigit]
+    obtain ⟨b, t, hb, hws, hb1, hb2, hb3⟩ := write_head F x hwf.1
+    have hx := ih1 hwf.1 (0x5B :: up) _ (fun _ => htail)
+    have hxs := ih2 hwf.2 up rest
+    simp only [Bool.not_false] at hxs
+    rw [hb] at hx
+    simp only [List.cons_append] at hx
+    have e : writeElems F first (x :: xs) ++ 0x5D :: rest =
+        (if first then [] else [0x2C]) ++ (b :: (t ++ (writeElems F false xs ++ 0x5D :: rest))) := by
+      simp [writeElems, hb]
+    rw [e, igAfter_eq]
+    cases first with
+    | true =>
+      simp only [if_true, List.nil_append, skipWs, hws, Bool.false_eq_true, if_false, Bool.not_true,
+        and_false, hb1, hb2, false_and, or_self, nextF, show ¬ (0x5B = 0x7B) by decide, hx, doneF, hxs]
+    | false =>
+      simp only [Bool.false_eq_true, if_false, List.cons_append, List.nil_append, skipWs,
+        show isWs 0x2C = false by decide, Bool.not_false, and_self, if_true, nextF,
+        show ¬ (0x5B = 0x7B) by decide, hx, doneF, hxs]
+  · -- entries nil
+    intro first _ up rest
+    rw [igAfter_eq]
+    simp [writeEntries, skipWs, isWs]
+  · -- entries cons
+    intro first k v es ih1 ih2 hwf up rest
+    simp only [wellFormedEntries, Bool.and_eq_true] at hwf
+    have htail : numEnd (writeEntries F false es ++ 0x7D :: rest) = true := by
+      cases es with
+      | nil => simp [writeEntries, numEnd, isDigit]
+      | cons y ys => obtain ⟨ky, vy⟩ := y; simp [writeEntries, numEnd, isDigit]
+    have hv := ih1 hwf.1.2 (0x7B :: up) _ (fun _ => htail)
+    have hes := ih2 hwf.2 up rest
+    simp only [Bool.not_false] at hes
+    have hk := ignoreStr_flatMap k (0x3A :: (write F v ++ (writeEntries F false es ++ 0x7D :: rest)))
+    have e : writeEntries F first ((k, v) :: es) ++ 0x7D :: rest =
+        (if first then [] else [0x2C]) ++ (0x22 :: (k.flatMap writeCp ++ 0x22 :: 0x3A ::
+          (write F v ++ (writeEntries F false es ++ 0x7D :: rest)))) := by
+      simp [writeEntries, writeStr]
+    rw [e, igAfter_eq]
+    cases first with
+    | true =>
+      simp only [if_true, List.nil_append, skipWs, show isWs 0x22 = false by decide, Bool.false_eq_true,
+        if_false, Bool.not_true, and_false, show ¬ (0x22 = 0x5D) by decide, show ¬ (0x22 = 0x7D) by decide,
+        false_and, or_self, nextF, ne_eq, not_true_eq_false, hk, show isWs 0x3A = false by decide, hv,
+        doneF, hes]
+    | false =>
+      simp only [Bool.false_eq_true, if_false, List.cons_append, List.nil_append, skipWs,
+        show isWs 0x2C = false by decide, Bool.not_false, and_self, if_true, nextF,
+        show isWs 0x22 = false by decide, ne_eq, not_true_eq_false, hk,
+        show isWs 0x3A = false by decide, hv, doneF, hes]
+
+
 end Xt.Json
